@@ -282,6 +282,43 @@ def _size_identities(ctx: Ctx, what: str, x: Any) -> None:
     ctx.check("C18", "size-identities", (x.size, x.weight, x.vsize) == (whole, 3 * stripped + whole, -(-(3 * stripped + whole) // 4)), lambda: f"{what}: size/weight/vsize {(x.size, x.weight, x.vsize)} for {whole}/{stripped} bytes", site=what)
 
 
+def _merkle_direct(ctx: Ctx, bulk: gb.Bulk, txids: list[bytes]) -> None:
+    """The tree functions asked directly, over a list the caller KEEPS: a node holds the txids of a block in one list and
+    asks for the root, builds branches from the same list, and asks again. The answer is the reference's whether the
+    bottom level arrives as a list or a tuple, and what the caller handed over is afterwards what it was."""
+    from btclib import hashes as lib_hashes  # noqa: PLC0415
+
+    ch = ctx.ch
+    shape = ch.weighted([("block", 3), ("drawn", 3), ("repeats", 2), ("dup-tail", 1)], "merkle.shape")
+    if shape == "block":
+        leaves = list(txids)
+    else:
+        n = ch.weighted([(1, 1), (2, 1), (3, 3), (5, 3), (6, 2), (7, 2), (9, 2), (11, 1), (13, 1), (17, 1), (33, 1)], "merkle.n")
+        leaves = [bulk.take(32) for _ in range(n)]
+        if shape == "repeats" and n > 1:
+            for _ in range(1 + ch.draw(3, "merkle.nrep")):
+                leaves[ch.draw(n, "merkle.rep.to")] = leaves[ch.draw(n, "merkle.rep.from")]
+        elif shape == "dup-tail":
+            extra = _dup_tail(ctx, n)
+            leaves += [leaves[i] for i in extra or []]
+    want = rm.root_and_mutated(list(leaves))
+    kept = list(leaves)  # the caller's own list object, handed over as it is
+    before = list(kept)
+    as_tuple = bool(ch.draw(3, "merkle.tuple?") == 2)
+    for ask in range(2 + ch.draw(2, "merkle.asks")):
+        with ctx.must_succeed(P, "merkle-root-computes", "hashes"):
+            got = lib_hashes.merkle_root_and_mutated_from_hashes(tuple(kept) if as_tuple else kept, rm.dsha)
+        ctx.check(P, "merkle-root-equals-reference", tuple(got) == tuple(want), lambda: f"{len(before)} leaves ({shape}) kept in one list, ask {ask} (now {len(kept)} in it): {got[0].hex()[:16]} mutated={got[1]}, the reference says {want[0].hex()[:16]} mutated={want[1]}", site="hashes/direct")
+        if kept != before:
+            ctx.probe("callers-list-changed-under-it")  # not the statement's business by itself: what the next ask and the branches say is
+        if not want[1] and ch.draw(2, "merkle.branch?"):
+            i = ch.draw(len(before), "merkle.leaf")
+            with ctx.must_succeed(P, "branch-root-computes", "hashes"):
+                r = lib_hashes.merkle_root_from_branch(kept[i], rm.branch(list(kept), i), i, rm.dsha)
+            ctx.check(P, "proof-verifies-iff-intact", r == want[0], lambda: f"leaf {i} of {len(before)}: the reference branch over the caller's list leads to {r.hex()[:16]}", site="hashes/direct")
+    ctx.probe(f"merkle-direct:{shape}")
+
+
 def _audit(ctx: Ctx, bulk: gb.Bulk, m: Mined) -> None:
     """Tampered copies of a valid block must be invalid; the mutation must be reported."""
     from dataclasses import replace  # noqa: PLC0415
@@ -295,6 +332,7 @@ def _audit(ctx: Ctx, bulk: gb.Bulk, m: Mined) -> None:
 
     ch = ctx.ch
     header, txs = m.block.header, m.block.transactions
+    _merkle_direct(ctx, bulk, m.txids)
     extra = _dup_tail(ctx, len(txs))
     if extra is not None:
         mutated = txs + [txs[i] for i in extra]
